@@ -1,6 +1,6 @@
 (* C15 — shape of the generated cases and the two executable verdicts. No proofs. *)
 From VLib Require Import CaseLib.
-From C15 Require Import Model.
+From C15 Require Import Model Reach.
 
 Definition kind_eqb (a b : kind) : bool :=
   match a, b with
